@@ -369,6 +369,15 @@ def build_case(ctx_, root, fs, gctx, untyped, compilers, java=True):
     paths = [f["path"] for f in fs["files"]]
     em = scrape.emit_all(ctx_["idlc"], root, paths, fs["main"], idirs=(), extra=extra)
     out = os.path.join(root, "out")
+    if untyped is False:
+        # generated over what an earlier, longer revision left in the output directory: every file of the
+        # first run gets a stale tail, then everything is generated again; what is compiled is the second run
+        for dp, _, fns in os.walk(out):
+            for fn in fns:
+                if fn.endswith((".h", ".hpp", ".rs", ".java")):
+                    with open(os.path.join(dp, fn), "a") as fh:
+                        fh.write("\n}} stale tail of an earlier, longer revision {{ ) ( \n" * 40)
+        em = scrape.emit_all(ctx_["idlc"], root, paths, fs["main"], idirs=(), extra=extra)
     diags, ncomp = [], 0
     incc = ["-I" + os.path.join(TESTS, "c"), "-I" + os.path.join(out, "c")]
     inccpp = incc + ["-I" + os.path.join(TESTS, "cpp"), "-I" + os.path.join(out, "cpp")]
